@@ -243,8 +243,9 @@ Lemma entries_eq_spec k ctl se pe :
   all_own ctl se ->
   (entries_eq ctl pe (merge k ctl se pe) = true <-> same_entry_set (own ctl pe) se).
 Proof.
-  intros Hown. unfold entries_eq. rewrite andb_true_iff, !forallb_forall. split.
-  - intros [HA HB]. split.
+  intros Hown. unfold entries_eq, same_entry_set. rewrite (own_merge k ctl se pe Hown).
+  rewrite !andb_true_iff, !forallb_forall, Nat.eqb_eq. split.
+  - intros [[HL HA] HB]. split; [|exact HL]. split.
     + intros x Hx. apply filter_In in Hx. destruct Hx as [Hx Hox].
       specialize (HA x Hx). rewrite Hox in HA. apply existsb_exists in HA. destruct HA as [y [Hy He]].
       apply entry_eqb_same in He. apply in_merge in Hy. destruct Hy as [Hy|Hy]; [exists y; auto|].
@@ -253,7 +254,7 @@ Proof.
       specialize (HB y Hm). apply existsb_exists in HB. destruct HB as [x [Hx He]].
       apply entry_eqb_same in He. exists x. split; [|exact He].
       apply filter_In. split; [exact Hx|]. rewrite <- (same_entry_own ctl y x He). apply Hown. exact Hy.
-  - intros [H1 H2]. split.
+  - intros [[H1 H2] HL]. split; [split; [exact HL|]|].
     + intros x Hx. destruct (is_own ctl x) eqn:Hox; [|reflexivity].
       destruct (H1 x) as [y [Hy He]]; [apply filter_In; auto|].
       apply existsb_exists. exists y. split; [apply in_merge; left; exact Hy|apply entry_eqb_same; exact He].
@@ -381,8 +382,9 @@ Proof. intros H. inversion H. auto. Qed.
 Lemma map_erase_set se se2 : map erase_entry se = map erase_entry se2 -> same_entry_set se se2.
 Proof.
   revert se2. induction se as [|x se IH]; destruct se2 as [|y se2]; cbn [map]; intros H; try discriminate.
-  - split; intros ? [].
-  - apply cons_inj in H. destruct H as [Hxy Hrest]. destruct (IH se2 Hrest) as [H1 H2]. split.
+  - split; [split; intros ? []|reflexivity].
+  - apply cons_inj in H. destruct H as [Hxy Hrest]. destruct (IH se2 Hrest) as [[H1 H2] HL].
+    split; [|cbn [List.length]; rewrite HL; reflexivity]. split.
     + intros z [<-|Hz]; [exists y; split; [left; reflexivity|exact Hxy]|].
       destruct (H1 z Hz) as [w [Hw Hs]]. exists w. split; [right; exact Hw|exact Hs].
     + intros z [<-|Hz]; [exists x; split; [left; reflexivity|symmetry; exact Hxy]|].
@@ -497,7 +499,7 @@ Proof. vm_compute. split; reflexivity. Qed.
 
 Example skip_example : same_entry_set (own ex_ctl [ex_foreign; ex_own 7%Z]) [ex_own 9%Z].
 Proof.
-  vm_compute. split; intros x [<-|[]]; eexists; (split; [left; reflexivity|reflexivity]).
+  vm_compute. split; [|reflexivity]. split; intros x [<-|[]]; eexists; (split; [left; reflexivity|reflexivity]).
 Qed.
 
 Example dedup_example :
